@@ -273,13 +273,16 @@ PROPS["C07"] = {
                    "controller leadership losses and, in a 40 ms regime, waits past the expiry timer, against the real metadataAPI of a started single-node controller (real Raft, real FSM); "
                    "model: a leader change happens at a report iff more than half of the in-sync followers have reported the current (leader, epoch) since the last change/expiry/reset; "
                    "after every request: stale pairs are refused without effect, the new leader comes from the ISR and is not the old one, leader in ISR subset of replicas, epochs only grow, one leader per leader epoch. Unit C07exh runs EVERY sequence of up to 4 (thorough: 5) requests over a 12-letter alphabet on a 3-replica partition (report by replica 0-2 with the current or a stale epoch, report naming a wrong leader, shrink/expand of either follower, controller leadership loss) through the same executor and oracle"),
-    "level_note": "replicas are foreign ids (this server is the controller only); the 40 ms regime discards (inconclusive) cases in which an 'immediate' step took >20 ms instead of guessing which side of the timer it fell on; operation bounce pauses and resumes the stream through the controller, which rebuilds the partition object from the stored record (as a snapshot restore does): leader, epoch and in-sync set must be what they were, the reports collected so far are forgotten",
+    "level_note": "replicas are foreign ids (this server is the controller only); the 40 ms regime discards (inconclusive) cases in which an 'immediate' step took >20 ms instead of guessing which side of the timer it fell on; operation bounce pauses and resumes the stream through the controller, which rebuilds the partition object from the stored record (as a snapshot restore does): leader, epoch and in-sync set must be what they were, the reports collected so far are forgotten; unit C07r sends the reports of all followers and ISR shrink requests by the leader (naming the pair current when they are sent) to the controller concurrently, with generated start delays of 0-2 ms: afterwards the leader must be in the in-sync set",
     "rule": "rapid draws 3 or 5 replicas, the timer regime and 3-30 requests. Non-trivial = a completed failover followed by further reports, an ISR change between two reports of one round, a report from a replica outside the ISR, or a timer expiry between reports. C07exh: 22,620 sequences (quick) / 271,452 (thorough), complete for its alphabet and length bound.",
     "assumptions": TRUST,
     "units": [
         {"name": "C07", "pkg": "server", "test": "TestVerifC07",
          "quick": {"shards": 8, "checks": 60}, "thorough": {"shards": 16, "checks": 2000, "timeout": 3000}},
         # bounded-exhaustive: every sequence of <= LEN operations over a 12-letter alphabet on a 3-replica partition
+        # concurrent requests to the controller: a quorum of reports racing with ISR shrinks sent by the leader being deposed
+        {"name": "C07r", "pkg": "server", "test": "TestVerifC07r",
+         "quick": {"shards": 4, "checks": 60}, "thorough": {"shards": 16, "checks": 600, "timeout": 3000}},
         {"name": "C07exh", "pkg": "server", "test": "TestVerifC07Exh", "kind": "exhaustive",
          "quick": {"shards": 16, "params": {"LEN": 4}}, "thorough": {"shards": 16, "params": {"LEN": 5}, "timeout": 3000}},
     ],
